@@ -74,6 +74,10 @@ pub struct Case {
 	/// rendered stream: every gain stage of the mixer through the real manager
 	#[serde(default)]
 	pub stage: Option<super::c06_stage::StageCase>,
+	/// from this update on the simulated clock no longer exists (its handle was dropped): a tween
+	/// still waiting for one of its times keeps the old value for good, one that has begun runs on
+	#[serde(default)]
+	pub clock_vanish: Option<usize>,
 }
 
 fn gen_case(seed: u64, tier: Tier) -> Case {
@@ -88,6 +92,7 @@ fn gen_case(seed: u64, tier: Tier) -> Case {
 			clock_toggles: vec![],
 			envelope: false,
 			stage: Some(super::c06_stage::gen(&mut rng, tier)),
+			clock_vanish: None,
 		};
 	}
 	let envelope = rng.chance(0.25);
@@ -161,6 +166,7 @@ fn gen_case(seed: u64, tier: Tier) -> Case {
 		clock_toggles,
 		envelope,
 		stage: None,
+		clock_vanish: if rng.chance(0.15) { Some(rng.usize_below(n)) } else { None },
 	}
 }
 
@@ -381,8 +387,10 @@ pub fn run_case(case: &Case) -> CaseResult {
 		if clock_ticking {
 			clock_pos += case.clock_speed * dt;
 		}
+		let clock_exists = case.clock_vanish.map(|v| i < v).unwrap_or(true);
 		let mut b = MockInfoBuilder::new();
-		let clock_id = b.add_clock(clock_ticking, clock_pos.floor() as u64, clock_pos.fract());
+		// (clock ids are positional: the id stays valid for commands issued after the clock is gone)
+		let clock_id = if clock_exists { b.add_clock(clock_ticking, clock_pos.floor() as u64, clock_pos.fract()) } else { MockInfoBuilder::new().add_clock(false, 0, 0.0) };
 		let info = b.build();
 		if let Some(set) = sets.peek() {
 			if set.at == i {
@@ -465,7 +473,7 @@ pub fn run_case(case: &Case) -> CaseResult {
 					must_have_started = false;
 				}
 			} else if let Some((ticks, frac)) = t.clock_target {
-				let reached = clock_ticking && (clock_pos.floor() as u64 > ticks || (clock_pos.floor() as u64 == ticks && clock_pos.fract() >= frac));
+				let reached = clock_exists && clock_ticking && (clock_pos.floor() as u64 > ticks || (clock_pos.floor() as u64 == ticks && clock_pos.fract() >= frac));
 				may_start_now = reached;
 				must_have_started = reached;
 			} else {
@@ -705,7 +713,7 @@ impl Check for C06 {
 		CheckInfo {
 			id: "C06",
 			level: "exploration",
-			rule: "each case = tweenable type (f64, f32, decibels, panning, rate, mix, duration, vector, clock speed same-unit and cross-unit), start value, a sequence of overlapping set() calls (target, duration incl. 0 and shorter than one update, every built-in easing with positive powers, start immediate / delayed / on a simulated clock that may pause) and an update-step partition (uniform, multiples, random, dyadic); a quarter of the cases read the per-frame gain envelope of a DC sound instead; 15% render a DC sound through the real manager (sound -> volume-control effect -> sub-track -> send route -> send track / main track) with overlapping set_volume / set_send tweens on any of the five gain stages and on the route volume, optionally pausing and resuming the sub-track in between (its sounds and effects stand still, its own volume and route go on), seeded internal buffer size and callback sizes that are not multiples of it, every output frame compared with the closed form interpolated at (i + 1) / n from the previous chunk's final value; non-trivial = at least one tween started or ended; distinct = hash of the per-update (idle / waiting / running) sequence, type and number of transitions",
+			rule: "each case = tweenable type (f64, f32, decibels, panning, rate, mix, duration, vector, clock speed same-unit and cross-unit), start value, a sequence of overlapping set() calls (target, duration incl. 0 and shorter than one update, every built-in easing with positive powers, start immediate / delayed / on a simulated clock that may pause or vanish before the start time - the tween is then dropped and the value stays) and an update-step partition (uniform, multiples, random, dyadic); a quarter of the cases read the per-frame gain envelope of a DC sound instead; 15% render a DC sound through the real manager (sound -> volume-control effect -> sub-track -> send route -> send track / main track) with overlapping set_volume / set_send tweens on any of the five gain stages and on the route volume, optionally pausing and resuming the sub-track in between (its sounds and effects stand still, its own volume and route go on), seeded internal buffer size and callback sizes that are not multiples of it, every output frame compared with the closed form interpolated at (i + 1) / n from the previous chunk's final value; non-trivial = at least one tween started or ended; distinct = hash of the per-update (idle / waiting / running) sequence, type and number of transitions",
 			assumptions: vec![
 				"timing is allowed one update of quantisation where a start time has to be reached (delayed, clock); immediate tweens are compared at their exact elapsed time".into(),
 				"tolerance 1e-9 relative for f64-based types, 1e-5 for f32-based ones; end points, holding and 'previous value == last value' are exact".into(),
